@@ -32,7 +32,7 @@ def _surface(seed, tier):
     env = dict(os.environ, CARGO_NET_OFFLINE="true")
     fails, info = [], {"rustc_checks": []}
     for feats in ([], ["--features", "serde"]):
-        p = subprocess.run(["cargo", "check", "--offline"] + feats, cwd=os.path.join(root, "surface"), env=env,
+        p = subprocess.run(["cargo", "check", "--offline"] + feats, cwd=os.environ.get("VERIF_SURFACE_DIR") or os.path.join(root, "surface"), env=env,
                            stdout=subprocess.PIPE, stderr=subprocess.STDOUT, text=True)
         ok = p.returncode == 0
         info["rustc_checks"].append({"features": feats[-1] if feats else "default", "ok": ok})
